@@ -233,7 +233,7 @@ invariant(MS + '.init_schedule', 0, 'for (servername, server) in self.cell.membe
           ['model_ok(self)',
            'forall(lambda s: implies(s in MEMBERS and _pos(s) < _i, zk_exists(cp("/placement", str_of(s)))), "Name")',
            ('C09,C10', 'not_created()'),
-           ('C09', 'forall(lambda s, a: implies(s in MEMBERS and _pos(s) < _i and zk_exists(pl(s, a)), placed_on(self, a, s)), '
+           ('C09,C10', 'forall(lambda s, a: implies(s in MEMBERS and _pos(s) < _i and zk_exists(pl(s, a)), placed_on(self, a, s)), '
                    '       "Name", "Name")'),
            ('C09', 'forall(lambda s, a: implies(placed_on(self, a, s) and old(zk_exists(pl(s, a))), zk_exists(pl(s, a))), '
                    '       "Name", "Name")'),
@@ -246,12 +246,12 @@ invariant(MS + '.init_schedule', 1, 'for app in current - correct',
            '_pos0(servername) == _i0',
            'forall(lambda s: implies(s in MEMBERS and _pos0(s) <= _i0, zk_exists(cp("/placement", str_of(s)))), "Name")',
            ('C09,C10', 'not_created()'),
-           ('C09', 'forall(lambda s, a: implies(s in MEMBERS and _pos0(s) < _i0 and zk_exists(pl(s, a)), '
+           ('C09,C10', 'forall(lambda s, a: implies(s in MEMBERS and _pos0(s) < _i0 and zk_exists(pl(s, a)), '
                    '       placed_on(self, a, s)), "Name", "Name")'),
            ('C09', 'forall(lambda s, a: implies(placed_on(self, a, s) and old(zk_exists(pl(s, a))), zk_exists(pl(s, a))), '
                    '       "Name", "Name")'),
            ('C09', 'unknown_untouched()'),
-           ('C09', 'forall(lambda a: zk_exists(pl(servername, a)) == '
+           ('C09,C10', 'forall(lambda a: zk_exists(pl(servername, a)) == '
                    '       (a in current and not exists(lambda j: 0 <= j and j < _i and _seq[j] == a, "Int")), "Name")'),
            ('C10', 'no_dup()'), ('C10', 'entries_known()')])
 
@@ -272,7 +272,7 @@ def done_server(self, s):
 invariant(MS + '.init_schedule', 2, 'for (servername, server) in self.cell.members().items()',
           ['model_ok(self)',
            'forall(lambda s: implies(s in MEMBERS, zk_exists(cp("/placement", str_of(s)))), "Name")',
-           ('C09', 'no_stale_members(self)'),
+           ('C09,C10', 'no_stale_members(self)'),
            ('C09', 'forall(lambda s: implies(s in MEMBERS and _pos(s) < _i, done_server(self, s)), "Name")'),
            ('C09', 'unknown_untouched()'),
            ('C10', 'no_dup()'), ('C10', 'entries_known()')])
@@ -282,10 +282,10 @@ invariant(MS + '.init_schedule', 3, 'for app in correct - current',
            'forall(lambda a: (a in correct) == (a in server.apps), "Name")',
            '_pos2(servername) == _i2',
            'forall(lambda s: implies(s in MEMBERS, zk_exists(cp("/placement", str_of(s)))), "Name")',
-           ('C09', 'no_stale_members(self)'),
+           ('C09,C10', 'no_stale_members(self)'),
            ('C09', 'forall(lambda s: implies(s in MEMBERS and _pos2(s) < _i2, done_server(self, s)), "Name")'),
            ('C09', 'unknown_untouched()'),
-           ('C09', 'forall(lambda a: zk_exists(pl(servername, a)) == '
+           ('C09,C10', 'forall(lambda a: zk_exists(pl(servername, a)) == '
                    '       (a in current or exists(lambda j: 0 <= j and j < _i and _seq[j] == a, "Int")), "Name")'),
            ('C09', 'forall(lambda j: implies(0 <= j and j < _i, pd_ok(self, _seq[j], zk_content(pl(servername, _seq[j])))), "Int")'),
            ('C10', 'no_dup()'), ('C10', 'entries_known()')])
@@ -295,10 +295,10 @@ invariant(MS + '.init_schedule', 4, 'for app in correct & current',
            'forall(lambda a: (a in correct) == (a in server.apps), "Name")',
            '_pos2(servername) == _i2',
            'forall(lambda s: implies(s in MEMBERS, zk_exists(cp("/placement", str_of(s)))), "Name")',
-           ('C09', 'no_stale_members(self)'),
+           ('C09,C10', 'no_stale_members(self)'),
            ('C09', 'forall(lambda s: implies(s in MEMBERS and _pos2(s) < _i2, done_server(self, s)), "Name")'),
            ('C09', 'unknown_untouched()'),
-           ('C09', 'forall(lambda a: implies(a in correct, zk_exists(pl(servername, a))), "Name")'),
+           ('C09,C10', 'forall(lambda a: implies(a in correct, zk_exists(pl(servername, a))), "Name")'),
            ('C09', 'forall(lambda a: implies(a in correct and a not in current, pd_ok(self, a, zk_content(pl(servername, a)))), "Name")'),
            ('C09', 'forall(lambda j: implies(0 <= j and j < _i, pd_ok(self, _seq[j], zk_content(pl(servername, _seq[j])))), "Int")'),
            ('C10', 'no_dup()'), ('C10', 'entries_known()')])
@@ -410,3 +410,38 @@ invariant(MS + '.reschedule', 1, 'for (app, before, _exp_before, after, exp_afte
                    '       pd_ok(self, a, zk_content(pl(self.cell.apps[a].server, a)))), "Name")')])
 for _callee in ('delete', 'put'):
     site(MS + '.reschedule', _callee, asserts=[('C10', 'no_dup()', 'no_dup_before_write')])
+
+
+# ------------------------------------------------------------------ Master.remove_app (an instance is deleted between cycles)
+cls('DeletedTraceEvent', 'treadmill.trace.app.events', {})
+contract('treadmill.trace.app.events:AppTraceEvent.__init__', types={'instanceid': 'Name', 'timestamp': 'Any', 'source': 'Any', 'payload': 'Any'}, assumed=True,
+         note='trace event object; no effect on the model or the store')
+contract('treadmill.trace:post', types={'events_dir': 'Name', 'event': 'DeletedTraceEvent'}, assumed=True,
+         note='writes an event file on the local disk; no effect on the model or the store')
+contract(S + ':Cell.remove_app', types={'appname': 'Name'},
+         ensures=['forall(lambda a: (a in self.apps) == (old(a in self.apps) and a != appname), "Name")',
+                  'forall(lambda a: implies(a in self.apps, self.apps[a] == old(self.apps[a]) and '
+                  '       self.apps[a].server == old(self.apps[a].server) and '
+                  '       self.apps[a].identity == old(self.apps[a].identity) and '
+                  '       self.apps[a].placement_expiry == old(self.apps[a].placement_expiry)), "Name")'],
+         modifies=['self.apps', ('Application.server', 'lambda a: True'), ('Application.identity', 'lambda a: True'),
+                   ('Application.placement_expiry', 'lambda a: True'), ('Application.evicted', 'lambda a: True'),
+                   ('Application.allocation', 'lambda a: True'),
+                   ('Server.apps', 'lambda s: True'), ('Node.free_capacity', 'lambda s: True'),
+                   ('Node.affinity_counters', 'lambda s: True'), ('IdentityGroup.available', 'lambda g: True'),
+                   ('Allocation.apps', 'lambda a: True')],
+         assumed=True,
+         note='summary for the publisher: the instance leaves the cell, no other instance changes server, identity or expiry '
+              '(Cell.remove_app is under contract for C05 in ./check C05)')
+contract(MS + '.remove_app', types={'appname': 'Name'},
+         requires=[('C09,C10', 'pub_all(self)'), ('C09', 'content_all(self)'),
+                   'forall(lambda a: implies(a in self.cell.apps, self.cell.apps[a].name == a), "Name")'],
+         ensures=[('C09,C10', 'pub_all(self)', 'exactly_the_placed'), ('C09', 'content_all(self)', 'content_is_model')],
+         modifies=['zk', 'alloc', 'clock', ('Cell.apps', 'lambda c: True'),
+                   ('Application.server', 'lambda a: True'), ('Application.identity', 'lambda a: True'),
+                   ('Application.placement_expiry', 'lambda a: True'), ('Application.evicted', 'lambda a: True'),
+                   ('Application.allocation', 'lambda a: True'),
+                   ('Server.apps', 'lambda s: True'), ('Node.free_capacity', 'lambda s: True'),
+                   ('Node.affinity_counters', 'lambda s: True'), ('IdentityGroup.available', 'lambda g: True'),
+                   ('Allocation.apps', 'lambda a: True')],
+         props=['C09', 'C10'])
